@@ -8,6 +8,7 @@ import (
 	"net/http"
 	"net/http/httptest"
 	"net/url"
+	"os"
 	"reflect"
 	"sort"
 	"strings"
@@ -18,7 +19,7 @@ import (
 
 // progNode is one statement of a registration program (C11).
 type progNode struct {
-	Op       string     `json:"op"` // verb | group | combo | routes | any | autohead | wrapper
+	Op       string     `json:"op"` // verb | group | combo | routes | any | autohead | wrapper | notfound (NotFound(handlers) declared here, possibly inside a group body: the not-found chain belongs to the router, not to the scope it is declared in)
 	Path     string     `json:"path,omitempty"`
 	Method   string     `json:"method,omitempty"`   // verb
 	NH       int        `json:"nh,omitempty"`       // number of own handlers
@@ -37,8 +38,9 @@ type progNode struct {
 }
 
 type progCase struct {
-	Body []progNode `json:"program"`
-	Reqs []progReq  `json:"requests,omitempty"` // empty: derived from the flat expansion
+	Classic bool       `json:"instance_made_by_Classic,omitempty"` // the program runs on flamego.Classic() (New + Logger, Recovery, Static): the same router, nothing switched on or off (serial cases; the instance logs to a discarded stdout)
+	Body    []progNode `json:"program"`
+	Reqs    []progReq  `json:"requests,omitempty"` // empty: derived from the flat expansion
 }
 
 type progReq struct {
@@ -119,7 +121,9 @@ func genProgBody(rng *rand.Rand, depth int) []progNode {
 		case k < 18:
 			out = append(out, progNode{Op: "any", Path: c11Paths[rng.Intn(len(c11Paths))], NH: 1 + rng.Intn(2), Spare: rng.Intn(2) * 3})
 		default:
-			if rng.Intn(3) == 0 {
+			if rng.Intn(4) == 0 {
+				out = append(out, progNode{Op: "notfound", NH: 1 + rng.Intn(2), Spare: rng.Intn(2) * 2})
+			} else if rng.Intn(3) == 0 {
 				out = append(out, progNode{Op: "wrapper", W: rng.Intn(3)})
 			} else {
 				out = append(out, progNode{Op: "autohead", On: rng.Intn(3) != 0})
@@ -153,6 +157,8 @@ type flattener struct {
 	wrap     int
 	out      []flatReg
 	refusedC map[int]string // combo statements that must be refused for a repeated method, by step
+	nf       []int          // handlers of the last NotFound statement (nil: the default not-found handler)
+	nfW      int            // wrapper in force when it was declared
 }
 
 func (fl *flattener) ids(n int) []int {
@@ -268,6 +274,8 @@ func (fl *flattener) body(nodes []progNode) {
 			fl.auto = n.On
 		case "wrapper":
 			fl.wrap = n.W
+		case "notfound":
+			fl.nf, fl.nfW = fl.ids(n.NH), fl.wrap
 		}
 	}
 }
@@ -464,6 +472,9 @@ func (x *progExec) body(nodes []progNode) {
 			f.AutoHead(n.On)
 		case "wrapper":
 			f.HandlerWrapper(traceWrapper(n.W, x.tr))
+		case "notfound":
+			hs := x.hs(n.NH, n.Spare)
+			x.guarded(step, func() { f.NotFound(hs...) })
 		}
 	}
 }
@@ -533,6 +544,17 @@ func judgeProg(w *core.W, c *progCase) {
 	var trA []string
 	var pA map[string]string
 	x := &progExec{f: flamego.NewWithLogger(io.Discard), tr: &trA, params: &pA, panics: map[int]string{}}
+	if c.Classic {
+		// Classic() logs to the stdout of the moment it is called
+		old := os.Stdout
+		if null, err := os.OpenFile(os.DevNull, os.O_WRONLY, 0); err == nil {
+			defer null.Close()
+			os.Stdout = null
+		}
+		x.f = flamego.Classic()
+		os.Stdout = old
+		w.Count("instances-made-by-Classic")
+	}
 	x.body(c.Body)
 	// B: the flat expansion, one single-method registration at a time
 	fl := &flattener{refusedC: map[int]string{}}
@@ -565,6 +587,15 @@ func judgeProg(w *core.W, c *progCase) {
 				chained[fr.Step] = append(chained[fr.Step], rt)
 			}
 		}()
+	}
+	if fl.nf != nil {
+		var hs []flamego.Handler
+		for _, id := range fl.nf {
+			hs = append(hs, traceHandler(id, &trB, &pB))
+		}
+		fb.HandlerWrapper(traceWrapper(fl.nfW, &trB))
+		fb.NotFound(hs...)
+		w.Count("not-found-chain-declared-by-the-program")
 	}
 	// Headers() is chained on what the call returns: a statement that was refused half-way returns nothing
 	for st, rts := range chained {
@@ -735,6 +766,15 @@ func runC11(r *core.Run) {
 		w.Begin("program", c)
 		judgeProg(w, c)
 	})
+	ws := r.Serial()
+	for i := 0; i < r.N(400, 8000); i++ {
+		c := &progCase{Classic: true, Body: genProgBody(r.Rand("prog-classic", i), 0)}
+		ws.Begin("program", c)
+		judgeProg(ws, c)
+	}
+	ws.Done()
+	ws.Merge()
+	r.GateCounter("instances-made-by-Classic", 100)
 	r.Gate("distinct_nontrivial", r.NonTrivialCount(), 2000)
 	for _, k := range []string{"feature:nesting>=2", "feature:combo>=2", "feature:combo-spare-capacity", "feature:autohead-inside-group", "feature:routes-comma", "feature:routes-multi", "feature:any", "feature:group-handlers", "feature:siblings-after-nested-group", "feature:wrapper-changed-inside-group", "feature:wrapper", "feature:headers-chained", "feature:routes-arguments-passed-again", "feature:autohead-switched-between-combo-verbs", "combo-refused-repeated-method", "statement-refused-in-both"} {
 		r.GateCounter(k, 20)
